@@ -91,7 +91,8 @@ Print Assumptions C11_sorted_contract.
 Definition ex_ops : list op :=
   [Update [Opd false (seq 0 40)]; Remove 30; Remove 35; Remove 34; Pop None; Pop None; Pop None; Pop None;
    Add 41; GetItem (-1); Index 41; Slice (Some 3%Z) (Some (-2)%Z) (Some 3);
-   IntersectionUpdate [Opd false (seq 0 20); Opd true (seq 10 40)]; Snapshot].
+   IntersectionUpdate [Opd false (seq 0 20); Opd true (seq 10 40)]; Snapshot;
+   SelfOp SIntersectionUpdate; SelfOp SUnion; SelfOp SSymDiffUpdate; Len].
 
 Example C11_ex_valid : valid_run [] ex_ops = true.
 Proof. vm_compute. reflexivity. Qed.
